@@ -97,6 +97,12 @@ var c16 = newChk("C16", "relay-chain",
 		if im0, err := inner.GetInnerMessage(); err != nil || im0 != inner {
 			return obs.Failf("C16/inner-message/plain-message", "the message itself", "err=%v", err)
 		}
+		// only the two relay message types encapsulate
+		for _, mt := range []dhcpv6.MessageType{dhcpv6.MessageTypeSolicit, dhcpv6.MessageTypeReply, dhcpv6.MessageType(0), dhcpv6.MessageType(14), dhcpv6.MessageType(255)} {
+			if out, err := dhcpv6.EncapsulateRelay(inner, mt, net.ParseIP("2001:db8::1"), net.ParseIP("fe80::1")); err == nil {
+				return obs.Failf("C16/encapsulate/accepts-non-relay-type", "error for a message type that is neither RELAY-FORW nor RELAY-REPL", "type %d accepted: %v", mt, out)
+			}
+		}
 		// build the RELAY-FORW chain level by level (Levels[0] is the innermost relay)
 		var cur dhcpv6.DHCPv6 = inner
 		for k, lv := range c.Levels {
